@@ -529,6 +529,10 @@ fn leak_grid_cells() -> Vec<(String, Vec<String>, &'static str)> {
                 if instance && class == "VAR CONSTANT" {
                     continue;
                 }
+                // (a FUNCTION has no RETAIN block: function_var_decls is VAR [CONSTANT])
+                if owner == "FUNCTION" && class == "VAR RETAIN" {
+                    continue;
+                }
                 let decl = if instance {
                     "lk_leak : lk_timer;".to_string()
                 } else if class == "VAR CONSTANT" {
@@ -592,6 +596,9 @@ fn run_leak_grid(rep: &mut Report) {
         if !base.ok {
             stats.case(false, hash_str(name));
             stats.class("leak-grid.owner-not-accepted(skipped)");
+            if std::env::var("VERIF_DEBUG_HEALTH").is_ok() {
+                eprintln!("LEAK-GRID-SKIPPED {}: owner alone gives {:?}", name, base.codes);
+            }
             return Ok(());
         }
         let mut arrangements: Vec<Arrangement> = permutations(k).into_iter().map(|p| Arrangement { files: vec![p] }).collect();
